@@ -37,7 +37,7 @@ def plan(tier, seed):
     r3_vals = [[2, 2, 2], [2, 3, 2], [1, 2, 3]]
     r3_leafs = [[2, 2, 2], [2, 3, 2], [3, 2, 2], [1, 2, 3], [2, 3], [2, 2]] + ([[2, 2, 3], [3, 2, 3], [2, 1, 2]] if tier == 'thorough' else [])
     rank3 = [{'leaf': l, 'vals': v, 'r3': True} for l in r3_leafs for v in r3_vals]
-    misc = [{'misc': k} for k in ('scalar', 'pytree', 'inverse_zero', 'inverse_tree', 'integers')]
+    misc = [{'misc': k} for k in ('scalar', 'pytree', 'inverse_zero', 'inverse_tree', 'integers', 'axes_as_list')]
     return [
         {'name': 'grid', 'target': TARGET, 'x64': False, 'cases': single, 'chunk': 2},
         {'name': 'trees', 'target': TARGET, 'x64': False, 'cases': trees, 'chunk': 4},
@@ -129,6 +129,28 @@ def run(phase, cases, ctx):
                     yb = np.asarray(opb.mv(jnp.asarray([7, 9], jnp.int32)))
                     if yb.dtype != np.int32 or yb.tolist() != [7, 0]:
                         violations.append({'kind': 'integer-values', 'case': case, 'detail': f'{cls_name}: boolean values on int32 data give {yb.dtype} {yb.tolist()}'})
+                nontrivial.add(json.dumps(case))
+                continue
+            if k == 'axes_as_list':
+                # "the result never depends on anything but the values, the axes and the input": the axes given as a Python
+                # LIST that the caller goes on using (reverses, overwrites) after the operator was built
+                vals = np.array([[1.0, 2.0, 3.0], [4.0, 5.0, 6.0], [7.0, 8.0, 10.0]], np.float32)
+                x = jnp.asarray(np.arange(9, dtype=np.float32).reshape(3, 3) + 1)
+                for cls_name, cls, _ in classes:
+                    for first, then in (([0, 1], 'reverse'), ([1, 0], 'reverse'), ([-2, -1], 'reverse'), ([0, 1], 'overwrite')):
+                        axes = list(first)
+                        want = np.asarray(cls(jnp.asarray(vals), axis_destination=tuple(first), in_structure=jax.ShapeDtypeStruct((3, 3), f32)).mv(x))
+                        op = cls(jnp.asarray(vals), axis_destination=axes, in_structure=jax.ShapeDtypeStruct((3, 3), f32))
+                        y1 = np.asarray(op.mv(x))
+                        if then == 'reverse':
+                            axes.reverse()
+                        else:
+                            axes[0], axes[1] = 1, 0
+                        y2 = np.asarray(op.mv(x))
+                        M2 = np.asarray(op.as_matrix()) @ np.asarray(x).ravel()
+                        if not np.array_equal(y1, want) or not np.array_equal(y2, want) or not np.array_equal(M2.reshape(3, 3), want):
+                            violations.append({'kind': 'depends-on-the-callers-list', 'case': case,
+                                               'detail': f'{cls_name}, axes given as the list {first}, list then changed ({then}): before {y1.ravel()[:4]}, after {y2.ravel()[:4]}, as_matrix {M2[:4]}, with a tuple {want.ravel()[:4]}'})
                 nontrivial.add(json.dumps(case))
                 continue
             if k in ('scalar', 'pytree'):
